@@ -63,6 +63,15 @@ func (r *Run) CaseEnd(id string) {
 	}
 }
 
+// CaseEndDeferred is CaseEnd for use in a defer statement: when the goroutine is panicking the case
+// stays open (so that the parent attributes the crash to it) and the panic continues.
+func (r *Run) CaseEndDeferred(id string) {
+	if p := recover(); p != nil {
+		panic(p)
+	}
+	r.CaseEnd(id)
+}
+
 // ChildResult is what the parent learns about one child.
 type ChildResult struct {
 	Exit      int
@@ -233,7 +242,12 @@ func (r *Run) RunChildren(role string, n, children int, prefix string, perCase t
 		wg.Add(1)
 		go func(lo, hi int) {
 			defer wg.Done()
+			crashes := 0
 			for lo < hi {
+				if crashes >= 6 {
+					r.Inconclusive(fmt.Sprintf("%s cases %d..%d not run: the child died 6 times in this range", role, lo, hi-1))
+					return
+				}
 				res := r.Spawn(role, []string{fmt.Sprintf("VX_RANGE=%d-%d", lo, hi)}, time.Duration(hi-lo)*perCase+2*time.Minute)
 				if !res.Crashed && !res.TimedOut {
 					return
@@ -249,8 +263,12 @@ func (r *Run) RunChildren(role string, n, children int, prefix string, perCase t
 					r.Inconclusive(role + " child ended abnormally outside a case: " + res.PanicText)
 					return
 				}
-				var k int
+				k := -1
 				fmt.Sscanf(strings.TrimPrefix(res.OpenCase, prefix), "%d", &k)
+				if k < lo {
+					k = lo // unparsable case id: never go backwards
+				}
+				crashes++
 				logp := r.KeepLog(res, fmt.Sprintf("crash-%s%d.log", prefix, k))
 				if res.TimedOut && !res.Crashed {
 					r.Inconclusive(fmt.Sprintf("%s%d: child watchdog (log %s)", prefix, k, logp))
